@@ -461,6 +461,11 @@ def oracle_C14(inp):
         p = a.parent
         pf = p.fields
         pf.clear()
+        for cfg_ in [None] + list(conf.path_configs.keys()):      # asking for its path changes no Sid
+            try:
+                a.path(cfg_) if cfg_ else a.path()
+            except SpilException:
+                pass
         a.get_as("project")
         (a / "x")
         a.copy().fields.clear()
@@ -876,6 +881,36 @@ def oracle_C07(inp):
 
 # ------------------------------------------------------------------------------------------ C05 / C06
 
+def _path_values_accepted(x, pc):
+    """does the path template of x's type accept the values of x as this configuration writes them on disk?  The
+    statement's own reading of a path configuration (defaults for empty values, the FIRST disk word of a mapped value,
+    defaults for template-only keys), rendered with the template's format and matched against its pattern.
+    None when this reading does not apply (extra keys, typed mappings)."""
+    import re as _re
+    r = Resolver.get(pc.name)
+    fmt, pat, keys = r.get_format_for(x.type), r.get_regex_for(x.type), r.get_keys_for(x.type)
+    if fmt is None or pat is None or getattr(pc, "sidkeys_to_extrakeys", None) or any(not isinstance(k, str) for k in pc.path_mapping):
+        return None
+    data = dict(x.fields)
+    for k in list(data):
+        if not data[k] and pc.path_defaults.get(k):
+            data[k] = pc.path_defaults[k]
+    for k, val in list(data.items()):
+        m = pc.path_mapping.get(k)
+        if val and m:
+            data[k] = next((disk for disk, sidv in m.items() if sidv == val), val)
+    for k in keys or []:
+        if k not in data and pc.path_defaults.get(k):
+            data[k] = pc.path_defaults[k]
+    if set(data) != set(keys or []):
+        return None
+    try:
+        rendered = fmt.format(**data)
+    except (KeyError, IndexError):
+        return None
+    return pat.match(rendered) is not None
+
+
 def oracle_C05(inp):
     """Sid -> path -> Sid for a concrete typed Sid with values outside {'', '.'}"""
     from spil.sid.pathops.pathconfig import get_path_config
@@ -918,8 +953,13 @@ def oracle_C05(inp):
             if p is not None:
                 out.append("%r has no path template in %r but path %r" % (x.uri, cfg, p))
             continue
+        acc = _path_values_accepted(x, pc)
         if p is None:
-            out.append("%r.path(%r) is None although its type has a path template" % (x.uri, cfg))
+            if acc is True:
+                out.append("%r.path(%r) is None although its type has a path template" % (x.uri, cfg))
+            continue      # (a value the path patterns of this configuration do not accept: no path, by design)
+        if acc is False:
+            out.append("%r.path(%r) = %r although the path patterns of this configuration do not accept its values" % (x.uri, cfg, str(p)))
             continue
         paths[cfg] = str(p)
         y = Sid(path=str(p), config=cfg)
